@@ -364,12 +364,12 @@ func drawArg(s *vs.Stream, p *pool, kind string) []int {
 	}
 	switch kind {
 	case "G":
-		return []int{s.Intn(len(p.geoms), "a/g")}
+		return []int{p.pickGeom(s, "a/g")}
 	case "Gs":
 		n := s.Intn(4, "a/ngs")
 		out := make([]int, n)
 		for i := range out {
-			out[i] = s.Intn(len(p.geoms), "a/g")
+			out[i] = p.pickGeom(s, "a/g")
 		}
 		return out
 	case "seq":
